@@ -43,6 +43,10 @@ Comps(j) == CASE j.k = "f" -> {F(j)}
               [] j.k = "t" -> UNION {Comps(j.v[i]) : i \in 1..Len(j.v)}
               [] OTHER -> {}
 
+\* real components of a value as a sequence (f: 1, c: 2)
+Comps2(j) == CASE j.k = "f" -> <<F(j)>> [] j.k = "c" -> <<F(j.re), F(j.im)>> [] j.k = "v" -> <<F(j.a), F(j.b)>>
+               [] j.k = "t" -> IF Len(j.v) = 0 THEN <<>> ELSE [i \in 1..Len(j.v) |-> F(j.v[i])]
+
 Post(ev) ==
   LET a == ev.a  p == ev.p  r == ev.r  o == Out(ev.o)  op == ev.op IN
   CASE op = "add" -> PostAdd(Arg(a[1]), Arg(a[2]), p, r, o)
@@ -85,6 +89,23 @@ Post(ev) ==
                     ELSE PostIv(ev.x.f, Pts(ev.x.xs), Pts(ev.x.ys), ev.x.n, Iv(ev.o))
     [] op = "civ" -> IF ev.o.k = "x" THEN ev.x.mayraise
                      ELSE PostCiv(ev.x.f, CPts(ev.x.xs), CPts(ev.x.ys), ev.x.n, <<Iv(ev.o.re), Iv(ev.o.im)>>)
+    [] op = "near" -> \* two outcomes of the same evaluation agree to within ev.x.k ulps at precision p (relative to the larger part)
+         LET xs == Comps2(a[1])  ys == Comps2(a[2]) IN
+         /\ Len(xs) = Len(ys)
+         /\ LET tops == {DyTop(DV(xs[i])) : i \in {j \in 1..Len(xs) : IsFin(xs[j])}} \cup {DyTop(DV(ys[i])) : i \in {j \in 1..Len(ys) : IsFin(ys[j])}}
+                top == IF tops = {} THEN 0 ELSE CHOOSE t \in tops : \A u \in tops : u <= t
+            IN \A i \in 1..Len(xs) :
+                 \/ xs[i] = ys[i]
+                 \/ /\ IsFinite(xs[i]) /\ IsFinite(ys[i])
+                    /\ DyCmpAbs(DySub(DV(xs[i]), DV(ys[i])), Dy(ZFromInt(ev.x.k), top - p)) <= 0
+    [] op = "relerr" -> \* |r - num/den| <= 2^(k-p) |num/den| for dyadic (mpf) num, den; exact
+         LET rr == DV(Arg(a[1]))  num == DV(Arg(a[2]))  den == DV(Arg(a[3]))
+         IN DyCmpAbs(DySub(DyMul(rr, den), num), DyShift(num, ev.x.k - p)) <= 0
+    [] op = "ode_rational" -> \* y' = -y^2, y(0) = 1 has the solution 1/(1+x): judged exactly
+         LET rr == DV(Arg(a[1]))  den == DyAdd(Dy(ZOne, 0), DV(Arg(a[2])))
+         IN DyCmpAbs(DySub(DyMul(rr, den), Dy(ZOne, 0)), Dy(ZOne, ev.x.k - p)) <= 0
+    [] op = "same_repr" -> \* C40: copy / unpickled value has the identical raw representation, type and equality flags
+         /\ Comps2(a[1]) = Comps2(a[2]) /\ ev.x.same_type /\ ev.x.equal
     [] op = "none" -> TRUE
 
 (*************************** C17 / C33: constants ***************************)
